@@ -14,10 +14,12 @@ C10 property theorems: the feature-space generalised eigenproblem `(lhs, rhs)` b
 `F : Mat N D K` holds the samples as ROWS, so the property's `X M Xᵀ` is `Fᵀ M F = fullForm M F` and
 `X diag(w) Xᵀ` is `fullDiagForm w F`.  The code accumulates into the UPPER triangles and (since the fix commits
 F-LIN-TRI, F-LLTSA-CENTRE) mirrors them before returning; the solver reads the LOWER triangles (`genSolveLower`).
+Since the fix commit F-LLTSA-SHIFT the LLTSA left-hand side is `2 · Fᵀ (H W H) F` (`centredForm W = H W H`, `H` the
+centring matrix): the alignment matrix acts on the centred features and the problem is translation invariant.
 The needed statement `SolverSeesFull` is a theorem of the code as it is (`solver_sees_XMXt`).  The last section restates,
 for the routines as they were BEFORE the fixes (`LinearGraph.PreFix.*`, historical definitions kept in
 `Proofs/LinearGraphPreFix.lean`), the refutation of the same statement and what the solver saw then: regression
-witnesses, not statements about the tree.
+witnesses, not statements about the tree; likewise `LinearGraph.PreShift.lltsaProblem` (LLTSA before F-LLTSA-SHIFT).
 Helper lemmas: `Proofs/LinearGraph.lean`, `Proofs/LinearGraphFixed.lean` (rotation), `Proofs/LinearGraphPreFix.lean`.
 -/
 namespace TapkeeVerif.C10
@@ -80,10 +82,78 @@ theorem fullForm_centering (F : Mat N D K) (i j : Fin D) :
       = fullDiagForm (fun _ => 1) F i j - featureSum F i * featureSum F j / (N : K) :=
   LinearGraph.fullForm_centering F i j
 
-/-- LLTSA returns `(2 · Fᵀ W F, Fᵀ H F)`, `H = 1 − 11ᵀ/N` (no hypothesis on `N`) -/
+/-- `centredForm W` is `H W H`, `H = 1 − 11ᵀ/N` the centring matrix -/
+theorem centredForm_eq_HWH (W : Mat N N K) :
+    Mat.toM (centredForm W) = Mat.toM (centering : Mat N N K) * Mat.toM W * Mat.toM (centering : Mat N N K) :=
+  centredForm_toM W
+
+/-- LLTSA returns `(2 · Fᵀ (H W H) F, Fᵀ H F)`: the alignment matrix acts on the CENTRED features (fix F-LLTSA-SHIFT).
+    No hypothesis on `N` is needed (the identity also holds when `(N : K) = 0`, where `H = 1`). -/
 theorem lltsa_returns {W : Mat N N K} (hW : ∀ r c, W r c = W c r) (F : Mat N D K) :
-    lltsaProblem W F = (fun i j => 2 * fullForm W F i j, fullForm centering F) :=
+    lltsaProblem W F = (fun i j => 2 * fullForm (centredForm W) F i j, fullForm centering F) :=
   LinearGraph.lltsa_returns hW F
+
+/-- the LLTSA `lhs` is the mirror of the accumulated upper triangle `lltsaLhsUpper W F` = the sparse loop followed by
+    `rankUpdate(weighted_sum, sum, -2/N)` and `rankUpdate(sum, 2 * w_ones.sum() / (N*N))` -/
+theorem lltsa_lhs_is_mirror (W : Mat N N K) (F : Mat N D K) :
+    (lltsaProblem W F).1 = Mat.upperView (lltsaLhsUpper W F) :=
+  lltsaProblem_fst W F
+
+/-- what those statements literally accumulate (NO symmetry assumed, any `N`): with `s = featureSum F = Σ x_r`,
+    `u = weightedFeatureSum W F = Σ (W1)_r x_r` -/
+theorem lltsa_lhs_expanded (W : Mat N N K) (F : Mat N D K) :
+    ∀ i j, i ≤ j →
+      lltsaLhsUpper W F i j
+        = fullForm W F i j + fullForm W F j i
+          - 2 / (N : K) * (weightedFeatureSum W F i * featureSum F j + featureSum F i * weightedFeatureSum W F j)
+          + 2 * (∑ r, rowSums W r) / ((N : K) * (N : K)) * (featureSum F i * featureSum F j) := by
+  intro i j h
+  rw [lltsaLhsUpper_get, if_pos h]
+
+/-- the same for symmetric `W`: `2 Fᵀ W F − (2/N)(u sᵀ + s uᵀ) + (2 · 1ᵀW1 / N²) s sᵀ` -/
+theorem lltsa_lhs_expanded_symm {W : Mat N N K} (hW : ∀ r c, W r c = W c r) (F : Mat N D K) :
+    ∀ i j, i ≤ j →
+      lltsaLhsUpper W F i j
+        = 2 * fullForm W F i j
+          - 2 / (N : K) * (weightedFeatureSum W F i * featureSum F j + featureSum F i * weightedFeatureSum W F j)
+          + 2 * (∑ r, rowSums W r) / ((N : K) * (N : K)) * (featureSum F i * featureSum F j) := by
+  intro i j h
+  rw [lltsa_lhs_expanded W F i j h, fullForm_symm hW F j i]
+  ring
+
+/-- `Fᵀ (H W H) F = Fᵀ W F − (u sᵀ + s u'ᵀ)/N + (1ᵀW1/N²) s sᵀ`, `u' = Σ (Wᵀ1)_r x_r` (`= u` for symmetric `W`);
+    any `W`, any `N`: the identity that connects `lltsa_lhs_expanded` with `lltsa_returns` -/
+theorem fullForm_centredForm (W : Mat N N K) (F : Mat N D K) (i j : Fin D) :
+    fullForm (centredForm W) F i j
+      = fullForm W F i j
+        - (weightedFeatureSum W F i * featureSum F j
+            + featureSum F i * weightedFeatureSum (Mat.transpose W) F j) / (N : K)
+        + (∑ a, rowSums W a) / ((N : K) * (N : K)) * (featureSum F i * featureSum F j) :=
+  LinearGraph.fullForm_centredForm W F i j
+
+/-- if `W 1 = σ 1` and `W` is symmetric then `H W H = W − (σ/N) 11ᵀ`: with the alignment matrix (`W 1 = shift · 1`)
+    `H W H = alignment + shift · H` (any `N`) -/
+theorem centredForm_of_const_eigvec {W : Mat N N K} {σ : K} (hσ : ∀ r, rowSums W r = σ)
+    (hW : ∀ r c, W r c = W c r) :
+    centredForm W = fun r c => W r c - σ / (N : K) :=
+  LinearGraph.centredForm_of_const_eigvec hσ hW
+
+example : (∀ r, rowSums refuteW r = 1) ∧ ∀ r c, refuteW r c = refuteW c r := ⟨refuteW_rowSums, refuteW_symm⟩
+
+/-- LLTSA no longer depends on the origin of the feature space (the C12 relation that found F-LLTSA-SHIFT):
+    both forms are unchanged by a translation `x ↦ x + t` of all samples -/
+theorem lltsa_translation_invariant (hN : (N : K) ≠ 0) (W : Mat N N K) (F : Mat N D K) (t : Vec D K) :
+    fullForm (centredForm W) (fun r j => F r j + t j) = fullForm (centredForm W) F ∧
+    fullForm centering (fun r j => F r j + t j) = fullForm centering F :=
+  ⟨fullForm_centredForm_translate hN W F t, fullForm_centering_translate hN F t⟩
+
+/-- hence the pair `construct_lltsa_eigenproblem` returns is translation invariant -/
+theorem lltsa_problem_translation_invariant (hN : (N : K) ≠ 0) {W : Mat N N K} (hW : ∀ r c, W r c = W c r)
+    (F : Mat N D K) (t : Vec D K) :
+    lltsaProblem W (fun r j => F r j + t j) = lltsaProblem W F :=
+  lltsaProblem_translate hN hW F t
+
+example : ((2 : Nat) : ℚ) ≠ 0 := by decide
 
 /-- LPP returns `(2 · Fᵀ L F, Fᵀ diag(Dg) F)` -/
 theorem lpp_returns {L : Mat N N K} (hL : ∀ r c, L r c = L c r) (Dg : Vec N K) (F : Mat N D K) :
@@ -104,9 +174,10 @@ theorem solver_sees_XMXt_npe {W : Mat N N K} (hW : ∀ r c, W r c = W c r) (F : 
     genSolveLower (npeProblem W F) = (fun i j => 2 * fullForm W F i j, fullDiagForm (fun _ => 1) F) :=
   genSolveLower_npe hW F
 
-/-- LLTSA, any field: the solver sees `2 · Fᵀ W F` and the centred `Fᵀ H F` -/
+/-- LLTSA, any field: the solver sees `2 · Fᵀ (H W H) F` and the centred `Fᵀ H F` -/
 theorem solver_sees_XMXt_lltsa {W : Mat N N K} (hW : ∀ r c, W r c = W c r) (F : Mat N D K) :
-    genSolveLower (lltsaProblem W F) = (fun i j => 2 * fullForm W F i j, fullForm centering F) :=
+    genSolveLower (lltsaProblem W F)
+      = (fun i j => 2 * fullForm (centredForm W) F i j, fullForm centering F) :=
   genSolveLower_lltsa hW F
 
 /-- LPP, any field: the solver sees `2 · Fᵀ L F` and `Fᵀ diag(Dg) F` -/
@@ -260,6 +331,25 @@ example : (genSolveLower (npeProblem refuteW refuteF)).1 0 1 = 2 ∧
     show 2 * fullForm refuteW refuteF 0 1 = 2
     rw [refute_fullForm_01, mul_one]
   · rw [prefix_solver_sees_diag refuteW_symm, if_neg (by decide)]
+
+/-- LLTSA between F-LLTSA-CENTRE and F-LLTSA-SHIFT (`PreShift.lltsaProblem`, historical definition) returned
+    `(2 · Fᵀ W F, Fᵀ H F)`: the left-hand side used the UNCENTRED features -/
+theorem preshift_lltsa_returns {W : Mat N N K} (hW : ∀ r c, W r c = W c r) (F : Mat N D K) :
+    PreShift.lltsaProblem W F = (fun i j => 2 * fullForm W F i j, fullForm centering F) :=
+  PreShift.lltsa_returns hW F
+
+/-- and therefore depended on the origin of the feature space (contrast `lltsa_problem_translation_invariant`).
+    Witness (`N = 2`, `D = 1`): samples `0`, `1`, `W = 1` (row sums `1 ≠ 0`), `t = 1`: `lhs` was `2` before and `10`
+    after the translation. -/
+theorem preshift_lltsa_not_translation_invariant :
+    ∃ (W : Mat 2 2 ℚ) (F : Mat 2 1 ℚ) (t : Vec 1 ℚ), (∀ r c, W r c = W c r) ∧
+      (PreShift.lltsaProblem W (fun r j => F r j + t j)).1 ≠ (PreShift.lltsaProblem W F).1 :=
+  ⟨refuteW, PreShift.shiftF, PreShift.shiftT, refuteW_symm, PreShift.lltsa_not_translation_invariant_witness⟩
+
+/-- on the same witness the current routine is unaffected by the translation -/
+example : lltsaProblem refuteW (fun r j => PreShift.shiftF r j + PreShift.shiftT j)
+    = lltsaProblem refuteW PreShift.shiftF :=
+  lltsa_problem_translation_invariant (by decide) refuteW_symm _ _
 
 /-! ## Spectral part (eigensolver contract `GenEigSystem` as hypothesis; `Proofs/SpectralLocal.lean`) -/
 
